@@ -61,6 +61,15 @@ class Check:
         self.verif = VERIF
         suffix = "" if self.repo == "/repo" else "-" + hashlib.sha1(self.repo.encode()).hexdigest()[:8]
         self.work = os.path.join(VERIF, "work", pid + suffix)
+        # two runs of the same check at the same time must not share a work dir
+        os.makedirs(os.path.join(VERIF, "work", "locks"), exist_ok=True)
+        self._worklock = open(os.path.join(VERIF, "work", "locks", pid + suffix + ".lock"), "w")
+        self._private_work = False
+        try:
+            fcntl.flock(self._worklock, fcntl.LOCK_EX | fcntl.LOCK_NB)
+        except OSError:
+            self.work = os.path.join(VERIF, "work", "%s%s-p%d" % (pid, suffix, os.getpid()))
+            self._private_work = True
         self.gen = os.path.join(self.work, "gen")
         self.t0 = now()
         self.obligations = []     # dicts: name, ok, detail, count
@@ -275,6 +284,41 @@ class Check:
         with ThreadPoolExecutor(max_workers=workers) as ex:
             return list(ex.map(lambda j: self.coq_eval(j[0], j[1], timeout=timeout), jobs))
 
+    def coqchk(self, modules, timeout=2400):
+        """Thorough tier: re-check the compiled closure of the given RGW/RG modules with the independent checker and
+        record the axioms it reports. modules e.g. ["RGW.C15"]."""
+        cmd = ["coqchk", "-silent", "-o", "-Q", os.path.join(VERIF, "coq", "theories"), "RG", "-Q", self.gen, "RGW"] + list(modules)
+        rc, out = self.sh(cmd, timeout=timeout, cwd=self.gen)
+        self.checker_cmds.append("coqchk -silent -o " + " ".join(modules))
+        m = re.search(r"\* Axioms:(.*?)\n\s*\n\* ", out, re.S)
+        axioms = re.sub(r"\s+", " ", m.group(1)).strip() if m else "?"
+        bad = []
+        for key in ("type-in-type", "unsafe (co)fixpoints", "positivity is assumed"):
+            mm = re.search(re.escape(key) + r":(.*?)\n\s*\n", out + "\n\n", re.S)
+            if mm and "<none>" not in mm.group(1):
+                bad.append(key + ":" + re.sub(r"\s+", " ", mm.group(1)).strip())
+        ok = rc == 0 and not bad
+        self.obligation("coqchk:" + ",".join(modules), ok, out[-2500:] if not ok else "")
+        self.trusted.append("coqchk (independent checker) on " + ",".join(modules) + ": axioms = " + axioms)
+        return ok
+
+    def clean_theories_build(self, timeout=3400):
+        """Thorough tier: full from-scratch build of coq/theories in a private copy (does not disturb concurrent checks)."""
+        dst = os.path.join(self.work, "clean")
+        shutil.rmtree(dst, ignore_errors=True)
+        os.makedirs(dst)
+        rc, out = self.sh("cd %s && rsync -a --exclude '*.vo*' --exclude '*.glob' --exclude '.*.aux' %s/coq/theories . && "
+                          "( echo '-Q theories RG'; find theories -name '*.v' | sort ) > _CoqProject && "
+                          "coq_makefile -f _CoqProject -o Makefile > /dev/null && timeout %d make -j16 2>&1 | tail -40" % (dst, VERIF, timeout),
+                          timeout=timeout + 60)
+        nv = len([1 for r, d, f in os.walk(os.path.join(dst, "theories")) for x in f if x.endswith(".v")])
+        nvo = len([1 for r, d, f in os.walk(os.path.join(dst, "theories")) for x in f if x.endswith(".vo")])
+        ok = rc == 0 and nv == nvo and nv > 0
+        self.obligation("clean-theories-build", ok, out[-2500:] if not ok else "", count=1)
+        self.checker_cmds.append("coq_makefile + make -j16 from scratch on a private copy of coq/theories (%d files)" % nv)
+        shutil.rmtree(dst, ignore_errors=True)
+        return ok
+
     def theory_files(self, *globs):
         import glob
         out = []
@@ -391,6 +435,8 @@ class Check:
         self.write_evidence(len(unlisted) + len(broken), known_hits)
         for l in lines:
             print(l, flush=True)
+        if self._private_work:
+            shutil.rmtree(self.work, ignore_errors=True)
         if rc == 0:
             self.log("PASS (%d obligations, %d evaluations, %d known-finding classes)" % (
                 sum(o["count"] for o in self.obligations), self.evaluations, len(known_hits)))
